@@ -1,5 +1,6 @@
 import Zlink.Proofs.Chain
 import Zlink.Proofs.Tx
+import Zlink.Proofs.RxWake
 /-! # C06 — A chain's reply stream yields exactly the replies its calls are owed
 
 Models: `Zlink/Model/Chain.lean` (`chain/reply_stream.rs`) over `Zlink/Model/Rx.lean`; `chain/mod.rs`
@@ -35,6 +36,31 @@ theorem C06_owed (kind : List Byte → Kind) (C : Consts) (hstep : 0 < C.step) (
     simp only [Conforming, owedWalk, Bool.and_eq_true, decide_eq_true_eq] at hconf
     have : ¬ count = 0 := by omega
     simp [Chain.new, this]
+
+/-- **A parked reply stream needs no polling.** A poll of the stream that ended pending has taken everything the
+    transport held; polling the stream again before anything arrives is pending again and changes neither the stream's
+    bookkeeping nor the connection's buffer and cursors nor the transport. A consumer that polls the stream only when its
+    waker has fired sees the items of `C06_owed`. -/
+theorem C06_parked_stream_poll_is_noop (kind : List Byte → Kind) (C : Consts) (sizes : Nat → Nat) (ss : SS) (s : St) (e : Net)
+    (h : (spoll kind C sizes ss s e).1 = .pending) :
+    spoll kind C sizes (spoll kind C sizes ss s e).2.1 (spoll kind C sizes ss s e).2.2.1 (spoll kind C sizes ss s e).2.2.2 =
+      (.pending, (spoll kind C sizes ss s e).2.1, (spoll kind C sizes ss s e).2.2.1, (spoll kind C sizes ss s e).2.2.2) := by
+  unfold spoll at h ⊢
+  by_cases hd : ss.done = true
+  · rw [if_pos hd] at h; cases h
+  · rw [if_neg hd] at h ⊢
+    generalize hp : poll C sizes s e = r at h ⊢
+    obtain ⟨o, s', e'⟩ := r
+    cases o with
+    | frame f => simp only [] at h; cases h
+    | err x => simp only [] at h; cases h
+    | pending =>
+      simp only []
+      rw [if_neg hd]
+      have hfix := poll_pending_fix C sizes s e (by rw [hp])
+      rw [hp] at hfix
+      simp only [] at hfix
+      rw [hfix]
 
 /-- A chain made only of oneway calls is owed nothing: its stream ends at once **without touching the
     transport or the receive buffer**, so it can neither wait for nor consume a later frame. -/
